@@ -201,6 +201,32 @@ func c08cases(seed int64, i int, keys *gen.KeyRing) []c08case {
 	if r.Bool() {
 		prot[gen.SpellIntAs(1, r.Intn(5))] = alg
 	}
+	if i%4 == 1 {
+		// steer the encoded protected map to sit exactly on / next to a length-prefix boundary
+		target := []int{22, 23, 24, 25, 254, 255, 256, 257}[(i/4)%8]
+		small := map[any]any{}
+		if r.Bool() {
+			small[int64(1)] = alg
+		}
+		small[gen.SpellInt(r, 4)] = []byte("k")
+		if c0, err := refcose.ProtectedContent(small, gen.Custom); err == nil {
+			// one more entry {label 99: bstr(n)} costs 2 (label) + head + n bytes
+			need := target - len(c0) - 2
+			for _, hl := range []int{1, 2, 3} {
+				n := need - hl
+				if n >= 0 && len(refcbor.AppendHead(nil, refcbor.Bstr, uint64(n), 0)) == hl {
+					small[int64(99)] = r.Bytes(n)
+					if n == 0 {
+						small[int64(99)] = []byte{}
+					}
+					break
+				}
+			}
+			if c1, err := refcose.ProtectedContent(small, gen.Custom); err == nil && len(c1) == target {
+				prot = small
+			}
+		}
+	}
 	// countersignature values in the unprotected bucket
 	mkCS := func() *cose.Countersignature {
 		p, civ := c08header(r, true, false)
@@ -218,6 +244,9 @@ func c08cases(seed int64, i int, keys *gen.KeyRing) []c08case {
 	payload := gen.Payload(r, false)
 	ext := gen.External(r)
 	cls := mapClass(prot, unprot)
+	if pc, err := refcose.ProtectedContent(prot, gen.Custom); err == nil {
+		cls += "/protlen=" + boundaryClass2(len(pc))
+	}
 	hdr := func() cose.Headers {
 		h := cose.Headers{Protected: cose.ProtectedHeader{}, Unprotected: cose.UnprotectedHeader{}}
 		for k, v := range prot {
@@ -605,4 +634,12 @@ func c08child(args []string) int {
 	}
 	fmt.Println(hex.EncodeToString(all.Sum(nil)))
 	return 0
+}
+
+func boundaryClass2(n int) string {
+	switch n {
+	case 22, 23, 24, 25, 254, 255, 256, 257:
+		return fmt.Sprint(n)
+	}
+	return "other"
 }
